@@ -211,6 +211,13 @@ def c07_update(d):
   mode = rep["mode"]
   if mode == "float":
     q.update_qnoise_factor(f)
+  elif mode == "float_after_call":
+    apply(q, [x])
+    q.update_qnoise_factor(f)
+  elif mode == "float_twice":
+    q.update_qnoise_factor(g)
+    apply(q, [x])
+    q.update_qnoise_factor(f)
   elif mode == "var_build_then_update":
     q.build(use_variables=True)
     q.update_qnoise_factor(f)
